@@ -25,6 +25,7 @@ const (
 	KSym                 // string of symbolic length (sym.go)
 	KFunc                // closure: function and bindings
 	KTuple               // results of a call
+	KChoice              // alternatives of a library call, one per path (path mode)
 )
 
 // Val is an abstract value.
@@ -40,6 +41,7 @@ type Val struct {
 	Fn     *ssa.Function  // KFunc
 	Binds  []Val          // KFunc
 	Tuple  []Val          // KTuple
+	Alts   []ChoiceAlt    // KChoice
 	cell   *cell
 	idx    int
 }
@@ -65,6 +67,16 @@ type Eval struct {
 	// ErrorsAsBits: results of type error are reduced to the bit "non-nil";
 	// struct values built for them are not modelled (stores into them vanish)
 	ErrorsAsBits bool
+	// ForcePath evaluates every function path by path, which library calls
+	// with several outcomes (strings.Cut, IndexByte, ...) need
+	ForcePath bool
+	// Assume restricts the evaluation to the inputs on which it holds (0: no
+	// restriction); results are meaningful only there
+	Assume int
+	// Steps is the number of blocks one function evaluation may execute
+	// (default 20000)
+	Steps int
+	fresh     int // next fresh variable for unknown library outcomes
 	depth        int
 	outerCond    int   // condition under which the current invocation runs
 	nextBinds    []Val // bindings of the closure about to be entered
@@ -158,6 +170,9 @@ func (e *Eval) Call(fn *ssa.Function, args []Val) (res []Val, err error) {
 		}
 	}()
 	e.outerCond = 1
+	if e.Assume != 0 {
+		e.outerCond = e.Assume
+	}
 	return e.call(fn, args), nil
 }
 
@@ -174,7 +189,7 @@ func (e *Eval) call(fn *ssa.Function, args []Val) []Val {
 		e.Entered[fn.String()] = true
 	}
 	m := e.M
-	loopy := false
+	loopy := e.ForcePath
 	for _, b := range fn.Blocks {
 		for _, p := range b.Preds {
 			if b.Dominates(p) {
@@ -337,8 +352,9 @@ func (e *Eval) call(fn *ssa.Function, args []Val) []Val {
 		return n, true
 	}
 	var curPred *ssa.BasicBlock
-	execBlock := func(b *ssa.BasicBlock) {
-		for _, ins := range b.Instrs {
+	execBlock := func(b *ssa.BasicBlock, from int) (int, []ChoiceAlt) {
+		for idx := from; idx < len(b.Instrs); idx++ {
+			ins := b.Instrs[idx]
 			switch v := ins.(type) {
 			case *ssa.DebugRef:
 			case *ssa.Alloc:
@@ -372,7 +388,8 @@ func (e *Eval) call(fn *ssa.Function, args []Val) []Val {
 					e.condStoreArr(a.cell, x.Elems, reach[b])
 				case KElemPtr:
 					if a.cell.items != nil {
-						if m.And(outer, reach[b]) != 1 {
+						if !loopy && reach[b] != 1 {
+							// path mode is on one path; merging would need a memory merge
 							unsupported("conditional store into an array of values in %s", fn.Name())
 						}
 						a.cell.items[a.idx] = x
@@ -541,8 +558,8 @@ func (e *Eval) call(fn *ssa.Function, args []Val) []Val {
 						ic, hi = a.cell, len(a.cell.items)
 						break
 					}
-					el = make([][]int, len(a.cell.arr))
-					copy(el, a.cell.arr)
+					// the window shares the array's storage
+					el = a.cell.arr
 					hi = len(el)
 				case KSlice:
 					el, lo, hi = a.Elems, a.Lo, a.Hi
@@ -657,8 +674,15 @@ func (e *Eval) call(fn *ssa.Function, args []Val) []Val {
 				vals[v] = out
 			case *ssa.Call:
 				e.outerCond = m.And(outer, reach[b])
-				vals[v] = e.doCall(fn, v, get)
+				r := e.doCall(fn, v, get)
 				e.outerCond = outer
+				if r.Kind == KChoice {
+					if !loopy {
+						unsupported("call with several outcomes outside path mode in %s", fn.Name())
+					}
+					return idx, r.Alts
+				}
+				vals[v] = r
 			case *ssa.Range:
 				x := get(v.X)
 				if x.Kind != KSlice && x.Kind != KStr {
@@ -666,11 +690,6 @@ func (e *Eval) call(fn *ssa.Function, args []Val) []Val {
 				}
 				if x.Kind == KStr {
 					x = Val{Kind: KSlice, Elems: e.constBytes(x.Str), Lo: 0, Hi: len(x.Str)}
-				}
-				for i := x.Lo; i < x.Hi; i++ {
-					if x.Elems[i][7] != 0 {
-						unsupported("range over a string that may hold non-ASCII bytes in %s", fn.Name())
-					}
 				}
 				it := x
 				it.cell = &cell{}
@@ -688,9 +707,16 @@ func (e *Eval) call(fn *ssa.Function, args []Val) []Val {
 					vals[v] = Val{Kind: KTuple, Tuple: []Val{BoolVal(0), e.Const(0, 64, true), e.Const(0, 32, true)}}
 					continue
 				}
-				r := Val{Kind: KBits, Bits: it.Elems[pos]}
-				vals[v] = Val{Kind: KTuple, Tuple: []Val{BoolVal(1), e.Const(int64(it.cell.pos), 64, true), {Kind: KBits, Bits: e.extend(r, 32), Signed: true}}}
-				it.cell.pos++
+				alts := e.decodeRune(it.Elems[pos:it.Hi], it.cell.pos)
+				if len(alts) == 1 && alts[0].Cond == 1 {
+					vals[v] = alts[0].Val
+					it.cell.pos += alts[0].Val.Lo
+					continue
+				}
+				if !loopy {
+					unsupported("iteration over a symbolic string outside path mode in %s", fn.Name())
+				}
+				return idx, alts
 			case *ssa.MakeClosure:
 				f, ok := v.Fn.(*ssa.Function)
 				if !ok {
@@ -746,6 +772,7 @@ func (e *Eval) call(fn *ssa.Function, args []Val) []Val {
 				unsupported("unsupported instruction %T %s in %s", ins, ins, fn.Name())
 			}
 		}
+		return -1, nil
 	}
 	if !loopy {
 		for _, b := range rpo(fn) {
@@ -759,7 +786,7 @@ func (e *Eval) call(fn *ssa.Function, args []Val) []Val {
 					continue // dead under every input
 				}
 			}
-			execBlock(b)
+			execBlock(b, 0)
 		}
 		return results
 	}
@@ -778,33 +805,85 @@ func (e *Eval) call(fn *ssa.Function, args []Val) []Val {
 		vc := make(map[ssa.Value]Val, len(vals))
 		seen := map[*cell]bool{}
 		var cs []cellSnap
+		var visit func(c *cell)
+		visit = func(c *cell) {
+			if c == nil || seen[c] {
+				return
+			}
+			seen[c] = true
+			cs = append(cs, cellSnap{c, append([][]int(nil), c.arr...), c.val, c.set, append([]Val(nil), c.items...), c.sym, c.pos})
+			if c.val != nil {
+				visit(c.val.cell)
+				for _, bv := range c.val.Binds {
+					visit(bv.cell)
+				}
+			}
+			for _, it := range c.items {
+				visit(it.cell)
+			}
+		}
 		for k, v := range vals {
 			vc[k] = v
-			if v.cell != nil && !seen[v.cell] {
-				seen[v.cell] = true
-				cs = append(cs, cellSnap{v.cell, append([][]int(nil), v.cell.arr...), v.cell.val, v.cell.set, append([]Val(nil), v.cell.items...), v.cell.sym, v.cell.pos})
+			visit(v.cell)
+			for _, bv := range v.Binds {
+				visit(bv.cell)
 			}
 		}
 		return vc, cs
 	}
-	var run func(b, pred *ssa.BasicBlock, cond int)
-	run = func(b, pred *ssa.BasicBlock, cond int) {
+	restore := func(vc map[ssa.Value]Val, cs []cellSnap) {
+		for k := range vals {
+			delete(vals, k)
+		}
+		for k, v := range vc {
+			vals[k] = v
+		}
+		for _, s := range cs {
+			s.c.arr, s.c.val, s.c.set, s.c.sym, s.c.pos = s.arr, s.val, s.set, s.sym, s.pos
+			if s.c.items != nil {
+				s.c.items = s.items
+			}
+		}
+	}
+	var run func(b, pred *ssa.BasicBlock, cond int, from int)
+	run = func(b, pred *ssa.BasicBlock, cond int, from int) {
 		steps++
-		if steps > 20000 {
+		if steps > e.budget() {
 			unsupported("%s: loop not bounded within the step budget", fn.Name())
 		}
-		for _, p := range b.Preds {
-			edge[[2]*ssa.BasicBlock{p, b}] = 0
-		}
-		if pred != nil {
-			edge[[2]*ssa.BasicBlock{pred, b}] = cond
+		if from == 0 {
+			for _, p := range b.Preds {
+				edge[[2]*ssa.BasicBlock{p, b}] = 0
+			}
+			if pred != nil {
+				edge[[2]*ssa.BasicBlock{pred, b}] = cond
+			}
 		}
 		reach[b] = cond
 		curPred = pred
 		for _, sc := range b.Succs {
 			edge[[2]*ssa.BasicBlock{b, sc}] = 0
 		}
-		execBlock(b)
+		if at, alts := execBlock(b, from); at >= 0 {
+			// one continuation per outcome of the library call
+			for _, alt := range alts {
+				c2 := m.And(cond, alt.Cond)
+				if c2 == 0 {
+					continue
+				}
+				vc, cs := snapshot()
+				vals[b.Instrs[at].(ssa.Value)] = alt.Val
+				if nx, isNext := b.Instrs[at].(*ssa.Next); isNext {
+					// the iterator advances by the width of the rune of this outcome
+					if it, okIt := vals[nx.Iter]; okIt && it.cell != nil {
+						it.cell.pos += alt.Val.Lo
+					}
+				}
+				run(b, pred, c2, at+1)
+				restore(vc, cs)
+			}
+			return
+		}
 		type out struct {
 			to   *ssa.BasicBlock
 			cond int
@@ -820,26 +899,21 @@ func (e *Eval) call(fn *ssa.Function, args []Val) []Val {
 		}
 		for i, o := range outs {
 			if i == len(outs)-1 {
-				run(o.to, b, o.cond)
+				run(o.to, b, o.cond, 0)
 				break
 			}
 			vc, cs := snapshot()
-			run(o.to, b, o.cond)
-			for k := range vals {
-				delete(vals, k)
-			}
-			for k, v := range vc {
-				vals[k] = v
-			}
-			for _, s := range cs {
-				s.c.arr, s.c.val, s.c.set, s.c.sym, s.c.pos = s.arr, s.val, s.set, s.sym, s.pos
-				if s.c.items != nil {
-					s.c.items = s.items
-				}
-			}
+			run(o.to, b, o.cond, 0)
+			restore(vc, cs)
 		}
 	}
-	run(fn.Blocks[0], nil, 1)
+	// the paths of a callee are explored under the absolute condition of the
+	// call, so that those the caller has already excluded are not followed
+	start := outer
+	if start == 0 {
+		return results
+	}
+	run(fn.Blocks[0], nil, start, 0)
 	return results
 }
 
@@ -1031,26 +1105,43 @@ func (e *Eval) binop(fn *ssa.Function, v *ssa.BinOp, x, y Val) Val {
 		}
 		return e.divmod(x, y, v.Op == token.REM)
 	case token.SHL, token.SHR:
-		n, ok := constIdx(v.Y)
-		if !ok {
-			unsupported("non-constant shift in %s", fn.Name())
-		}
 		w := len(x.Bits)
-		out := make([]int, w)
-		for i := 0; i < w; i++ {
-			var src int
-			if v.Op == token.SHL {
-				src = i - n
-			} else {
-				src = i + n
+		shiftBy := func(n int) []int {
+			out := make([]int, w)
+			for i := 0; i < w; i++ {
+				var src int
+				if v.Op == token.SHL {
+					src = i - n
+				} else {
+					src = i + n
+				}
+				switch {
+				case src >= 0 && src < w:
+					out[i] = x.Bits[src]
+				case src >= w && x.Signed:
+					out[i] = x.Bits[w-1]
+				}
 			}
-			switch {
-			case src >= 0 && src < w:
-				out[i] = x.Bits[src]
-			case src >= w && x.Signed:
-				out[i] = x.Bits[w-1]
-			}
+			return out
 		}
+		if n, ok := constIdx(v.Y); ok {
+			return Val{Kind: KBits, Bits: shiftBy(n), Signed: x.Signed}
+		}
+		// a computed amount: one case per value it can take
+		out := make([]int, w)
+		e.enum(y.Bits, func(n uint64, cond int) {
+			if y.Signed && asSigned(n, len(y.Bits)) < 0 {
+				unsupported("shift by a possibly negative amount in %s", fn.Name())
+			}
+			k := w
+			if n < uint64(w) {
+				k = int(n)
+			}
+			sh := shiftBy(k)
+			for i := range out {
+				out[i] = m.Or(out[i], m.And(cond, sh[i]))
+			}
+		})
 		return Val{Kind: KBits, Bits: out, Signed: x.Signed}
 	}
 	if len(x.Bits) != len(y.Bits) {
@@ -1159,6 +1250,9 @@ func (e *Eval) doCall(fn *ssa.Function, v *ssa.Call, get func(ssa.Value) Val) Va
 		}
 	}
 	if r, ok := e.symCall(name, c, args, e.outerCond); ok {
+		return r
+	}
+	if r, ok := e.scanCall(name, c, args); ok {
 		return r
 	}
 	if callee := c.StaticCallee(); callee != nil && len(callee.Blocks) > 0 && e.InScope != nil && e.InScope(callee) {
@@ -1305,4 +1399,18 @@ func (e *Eval) tableOf(a Val) ([][]int, bool) {
 		}
 	}
 	return nil, false
+}
+
+// ChoiceAlt is one outcome of a library call: the condition on the inputs
+// under which it is the outcome, and the value.
+type ChoiceAlt struct {
+	Cond int
+	Val  Val
+}
+
+func (e *Eval) budget() int {
+	if e.Steps > 0 {
+		return e.Steps
+	}
+	return 20000
 }
